@@ -56,6 +56,10 @@ Expect ==
     \* split(join(parts, t), escape_pattern(t)) = parts when no part contains t
     [] Ev.op = "join_split"  -> Val /\ Ev.rl = SplitLit(Join(Ev.parts, Ev.t), Ev.t)
     [] Ev.op = "replace"     -> Val /\ Ev.rs = ReplaceAll(Ev.s, Ev.t, Ev.r)
+    \* strings with hundreds of occurrences: the one-pass formulations
+    [] Ev.op = "replace_many" -> Val /\ Ev.rs = ReplaceScan(Ev.s, Ev.t, Ev.r)
+    [] Ev.op = "split_many"   -> Val /\ Ev.rl = SplitScan(Ev.s, Ev.t)
+    [] Ev.op = "join_split_many" -> Val /\ Ev.rl = SplitScan(Join(Ev.parts, Ev.t), Ev.t)
     \* empty search text: not defined by the property, but it must come back
     [] Ev.op = "replace_empty" -> Ev.st # "host"
     [] Ev.op = "apply1"      -> Val /\ Ev.rs = Apply1(Ev.f, Ev.s)
@@ -74,11 +78,13 @@ Expect ==
                                     /\ (AllPlain(Ev.s) => Ev.rs = Apply1(Ev.f, Ev.s))
     \* the template is text; the model scans it itself.  via = "sprintf":
     \* the values are the arguments, named 0, 1, 2, ...
-    [] Ev.op = "interp"      -> Val /\ Ev.rs = S(Ev.tpl, Ev.env).txt
+    [] Ev.op = "interp"      -> Val /\ Ev.rs = SAt(Ev.tpl, Ev.env, Ev.start).txt
+    \* (start: the second parameter of s; nargs: how many of the values are
+    \* arguments of sprintf, the others are variables of the caller)
     \* {v#.d} denotes the rounded number; '<lit1>{v#[-|0]w.d}<lit2>' is
     \* that text padded, between the unchanged literal texts
     [] Ev.op = "round"       -> Val /\ RoundTextOK(Ev.rs, Ev.neg = 1, Ev.ip, Ev.fp, Ev.d)
-                                    /\ Ev.rs2 = Ev.lit1 \o Pad(Ev.rs, Ev.w, Ev.mode) \o Ev.lit2
+                                    /\ Ev.rs2 = Ev.lit1 \o PadNum(Ev.rs, Ev.w, Ev.mode) \o Ev.lit2
     [] Ev.op = "lines"       -> Val /\ Ev.rl = Lines(Ev.s)
     [] Ev.op = "words"       -> Val /\ Ev.rl = Words(Ev.s)
     [] Ev.op = "unlines"     -> Val /\ Ev.rs = Unlines(Ev.parts)
@@ -89,11 +95,10 @@ Expect ==
 
 \* is the event one the model defines?
 Defined ==
-  CASE Ev.op = "interp" -> /\ S(Ev.tpl, Ev.env).ok
-                           /\ (Ev.via = "sprintf" => ArgNamesOK(Ev.env))
+  CASE Ev.op = "interp" -> /\ SAt(Ev.tpl, Ev.env, Ev.start).ok
+                           /\ (Ev.via = "sprintf" => ArgNamesOK2(Ev.env, Ev.nargs) /\ Ev.start = 0)
     [] Ev.op = "round"  -> /\ IsDigitSeq(Ev.ip) /\ IsDigitSeq(Ev.fp) /\ Ev.ip # << >>
                            /\ ~IsTie(Ev.fp, Ev.d)
-                           /\ ~(Ev.mode = "z" /\ Ev.neg = 1)
     [] OTHER            -> TRUE
 
 Init == l = 1
